@@ -350,6 +350,8 @@ class TAPParser:
     _RE_PLAN = re.compile(r'1\.\.([0-9]+)' + _RE_DIRECTIVE.pattern)
     _RE_TEST = re.compile(r'((?:not )?ok)\s*(?:([0-9]+)\s*)?([^#]*)' + _RE_DIRECTIVE.pattern)
     _RE_VERSION = re.compile(r'TAP version ([0-9]+)')
+    # int() refuses to convert longer digit strings (ValueError)
+    _MAX_DIGITS = 1000
     _RE_YAML_START = re.compile(r'(\s+)---.*')
     _RE_YAML_END = re.compile(r'\s+\.\.\.\s*')
 
@@ -430,6 +432,9 @@ class TAPParser:
                 return
 
             m = self._RE_TEST.match(line)
+            if m and m.group(2) is not None and len(m.group(2)) > self._MAX_DIGITS:
+                yield self.Error('test number is too large')
+                return
             if m:
                 if self.plan and self.plan.late and not self.found_late_test:
                     yield self.Error('unexpected test after late plan')
@@ -448,6 +453,9 @@ class TAPParser:
                 return
 
             m = self._RE_PLAN.match(line)
+            if m and len(m.group(1)) > self._MAX_DIGITS:
+                yield self.Error('number of tests in the plan is too large')
+                return
             if m:
                 if self.plan:
                     yield self.Error('more than one plan found')
@@ -477,6 +485,9 @@ class TAPParser:
                 # The TAP version is only accepted as the first line
                 if self.lineno != 1:
                     yield self.Error('version number must be on the first line')
+                    return
+                if len(m.group(1)) > self._MAX_DIGITS:
+                    yield self.Error('version number is too large')
                     return
                 self.version = int(m.group(1))
                 if self.version < 13:
